@@ -30,6 +30,10 @@ var modulePool = []transformer.ModuleFile{
 	{Name: "same-name-two-types.fga", Contents: "module samename\nextend type org\n  relations\n    define viewer: [user]\nextend type doc\n  relations\n    define viewer: [user]\n"},
 	{Name: "short-name.fga", Contents: "module shortname\nextend type doc\n  relations\n    define e: [user]\n"},
 	{Name: "short-name-again.fga", Contents: "module shortnameagain\nextend type doc\n  relations\n    define e: [user]\n"},
+	// relation names that differ only in case, all of them re-declared by one extension (the order of the four conflict errors must not
+	// depend on map iteration)
+	{Name: "casing.fga", Contents: "module casing\ntype casedoc\n  relations\n    define Viewer: [user]\n    define viewer: [user]\n    define Editor: [user]\n    define editor: [user]\n"},
+	{Name: "casing-again.fga", Contents: "module casingagain\nextend type casedoc\n  relations\n    define viewer: [user]\n    define Viewer: [user]\n    define editor: [user]\n    define Editor: [user]\n"},
 	{Name: "plain-model.fga", Contents: "model\n  schema 1.1\ntype standalone\n"},
 	{Name: "broken.fga", Contents: "module broken\ntype\n"},
 }
